@@ -10,6 +10,7 @@ import (
 	"net/http/httptest"
 	"net/url"
 	"os"
+	"path/filepath"
 	"sort"
 	"strings"
 	"time"
@@ -30,6 +31,7 @@ type Conf struct {
 	Mod   func(c *config.Config)    // adjust the configuration
 	Prep  func(dir string)          // populate the directory before the server is created
 	Extra map[string]string         // free-form parameters for the check
+	Nest  bool                      // the root directory is created inside an outer directory that holds sentinel files
 }
 
 func bp(b bool) *bool { return &b }
@@ -38,6 +40,7 @@ func bp(b bool) *bool { return &b }
 type World struct {
 	Conf   *Conf
 	Dir    string
+	Outer  string // with Conf.Nest: the directory around the root
 	S      *olareg.Server
 	Cfg    config.Config
 	Slots  map[string]string // session slot -> id (for canonical dumps)
@@ -47,6 +50,7 @@ type World struct {
 	Verbose bool
 	AutoViol []Violation // violations detected by the DSL itself (handler panics)
 	LastResp Resp        // the response of the last request
+	Aux      map[string]string // scratch values of the check (not part of the state)
 	Hist     []string    // names of the operations of the history being executed (for shape signatures)
 	nreq   int
 }
@@ -77,7 +81,7 @@ func BaseConfig() config.Config {
 func NewWorld(conf *Conf, rc vrt.Config) *World {
 	vrt.Reset(rc)
 	vos.Reset(true)
-	w := &World{Conf: conf, Slots: map[string]string{}}
+	w := &World{Conf: conf, Slots: map[string]string{}, Aux: map[string]string{}}
 	if conf == nil {
 		return w // a world without a server (data-structure checks)
 	}
@@ -89,6 +93,18 @@ func NewWorld(conf *Conf, rc vrt.Config) *World {
 		d, err := os.MkdirTemp(scratchRoot, "verif-w-")
 		if err != nil {
 			panic(err)
+		}
+		if conf.Nest {
+			w.Outer = d
+			_ = os.WriteFile(filepath.Join(d, "sentinel.txt"), []byte("do not touch"), 0o644)
+			_ = os.MkdirAll(filepath.Join(d, "sibling", "blobs", "sha256"), 0o755)
+			_ = os.WriteFile(filepath.Join(d, "sibling", "index.json"), []byte(`{"schemaVersion":2,"manifests":[]}`), 0o644)
+			_ = os.WriteFile(filepath.Join(d, "sibling", "oci-layout"), []byte(`{"imageLayoutVersion":"1.0.0"}`), 0o644)
+			_ = os.WriteFile(filepath.Join(d, "index.json"), []byte(`{"schemaVersion":2,"manifests":[]}`), 0o644)
+			_ = os.WriteFile(filepath.Join(d, "oci-layout"), []byte(`{"imageLayoutVersion":"1.0.0"}`), 0o644)
+			_ = os.Symlink("sentinel.txt", filepath.Join(d, "link"))
+			d = filepath.Join(d, "root")
+			_ = os.Mkdir(d, 0o755)
 		}
 		w.Dir = d
 		c.Storage.RootDir = d
@@ -151,7 +167,9 @@ func (w *World) Destroy() {
 		vrt.Finish()
 	}()
 	vos.CloseAllOpen()
-	if w.Dir != "" {
+	if w.Outer != "" {
+		_ = os.RemoveAll(w.Outer)
+	} else if w.Dir != "" {
 		_ = os.RemoveAll(w.Dir)
 	}
 }
